@@ -23,11 +23,13 @@ const std::uint32_t MX_DEFAULT = 0x1F80;
 const std::uint16_t CW_DEFAULT = 0x037F;
 const char* RCNAME[4] = {"nearest", "down", "up", "zero"};
 
-struct Env { int rc = 0, ftz = 0, daz = 0; };
+// xrc: rounding-control field of the x87 control word; -1 = the same as MXCSR.RC (what fesetround() gives).  Code that sets the SSE
+// mode directly (_MM_SET_ROUNDING_MODE, _mm_setcsr) leaves the two fields different; SSE arithmetic and libm follow MXCSR.
+struct Env { int rc = 0, ftz = 0, daz = 0, xrc = -1; };
 void apply_env(const Env& e) {
     std::uint32_t mx = MX_DEFAULT | ((std::uint32_t)e.rc << 13) | (e.ftz ? 0x8000u : 0) | (e.daz ? 0x40u : 0);
     set_mxcsr(mx);
-    set_cw((std::uint16_t)((CW_DEFAULT & ~0x0C00) | (e.rc << 10)));
+    set_cw((std::uint16_t)((CW_DEFAULT & ~0x0C00) | ((e.xrc < 0 ? e.rc : e.xrc) << 10)));
 }
 
 // A signal raised inside an AVEL operation (SIGFPE from an integer division, SIGILL, SIGSEGV) must not kill the worker:
@@ -207,7 +209,9 @@ struct FenvEngine : Engine {
         while (hi - lo > 1) { std::size_t mid = (lo + hi) / 2; if (segs[mid].first <= idx) lo = mid; else hi = mid; }
         const SweepSeg& sg = segs[lo]; const OpRef& o = ops[sg.op]; std::uint64_t blk = idx - sg.first;
         out.head.op = "plan"; out.head.set("engine", "fenv"); out.head.set("prop", prop); out.head.set("kind", "sweep");
-        Step e; e.op = "setenv"; e.set("rc", sg.rc); e.set("ftz", 0); e.set("daz", 0); out.steps.push_back(e);
+        Step e; e.op = "setenv"; e.set("rc", sg.rc); e.set("ftz", 0); e.set("daz", 0);
+        if (idx % 5 == 3) e.set("xrc", (int)((sg.rc + 1 + idx % 3) & 3));     // a fifth of the sweep: x87 RC differs from MXCSR RC
+        out.steps.push_back(e);
         std::uint64_t K = o.op->elem == 4 ? L32.size() : L64.size();
         std::uint64_t per_ = (std::uint64_t)sweep_steps * o.op->width, nb = (K + per_ - 1) / per_, pairing = blk / nb; blk %= nb;
         std::uint64_t pos = blk * sweep_steps * o.op->width;
@@ -262,6 +266,7 @@ struct FenvEngine : Engine {
             if (s == 0 || r.chance(1, 4)) {
                 Step e; e.op = "setenv"; e.set("rc", (int)r.below(4));
                 e.set("ftz", ftzdaz ? (int)r.below(2) : 0); e.set("daz", ftzdaz ? (int)r.below(2) : 0);
+                if (r.chance(1, 4)) e.set("xrc", (int)r.below(4));
                 out.steps.push_back(e); if (s) continue;
             }
             if (!api.empty() && r.chance(1, 4)) {
@@ -466,8 +471,9 @@ struct FenvEngine : Engine {
         int stepno = 0;
         for (auto& st : plan.steps) {
             if (st.op == "setenv") {
-                env.rc = (int)(st.num("rc") & 3); env.ftz = st.num("ftz") ? 1 : 0; env.daz = st.num("daz") ? 1 : 0;
-                rr.log.linef("%d setenv rc=%d ftz=%d daz=%d", stepno, env.rc, env.ftz, env.daz);
+                env.rc = (int)(st.num("rc") & 3); env.ftz = st.num("ftz") ? 1 : 0; env.daz = st.num("daz") ? 1 : 0; env.xrc = st.has("xrc") ? (int)(st.num("xrc") & 3) : -1;
+                rr.log.linef("%d setenv rc=%d ftz=%d daz=%d xrc=%d", stepno, env.rc, env.ftz, env.daz, env.xrc);
+                if (env.xrc >= 0 && env.xrc != env.rc) stats.faults["env_jump_x87_rc_differs_from_mxcsr_rc"]++;
                 stats.faults[std::string("env_jump_rc_") + RCNAME[env.rc]]++;
                 if (env.ftz) stats.faults["env_jump_ftz"]++;
                 if (env.daz) stats.faults["env_jump_daz"]++;
